@@ -62,7 +62,7 @@ Proof.
   intros H. unfold operator_site. apply existsb_exists. exists s. split; [exact H|apply String.eqb_refl].
 Qed.
 
-Ltac site := vm_compute; reflexivity.
+Ltac site := lazymatch goal with |- operator_site (String _ _) = true => vm_compute; reflexivity end.
 
 (* ---------- Values.fv_eq ---------- *)
 Lemma fv_eq_safe : forall a b, safe (fun _ => True) (fv_eq a b).
@@ -150,22 +150,31 @@ Section Regex.
   Lemma regex_opt_safe l rx : safe (fun _ => True) (regex_matches_optimized l rx).
   Proof. unfold regex_matches_optimized. destruct l; try exact I; cbn [safe]; site. Qed.
 
-  Lemma static_regex_safe r : safe (fun _ => True) (static_regex re r).
+  (* after the stage-building pre-check has passed, the per-context regex expect()s cannot fire *)
+  Lemma static_regex_ok op r :
+    precheck_static re op r = Ok tt -> op = RegexMatches \/ op = NotRegexMatches ->
+    exists rx, static_regex re r = Ok rx.
   Proof.
-    unfold static_regex. destruct r; try (cbn [safe]; site).
-    destruct (regex_new re s); [exact I|cbn [safe]; site].
+    intros H Hop. unfold static_regex, regex_new.
+    assert (Hr : match r with Str p => re p EmptyString <> None | _ => False end).
+    { unfold precheck_static in H. destruct Hop as [-> | ->];
+        (destruct r; try discriminate; destruct (re s EmptyString); [discriminate|discriminate]). }
+    destruct r; try contradiction. destruct (re s EmptyString); [eauto|congruence].
   Qed.
 
-  Theorem apply_static_safe op l r act : safe (fun _ => True) (apply_static re op l r act).
+  Theorem apply_static_safe op l r act :
+    opk_unary op = false -> precheck_static re op r = Ok tt ->
+    safe (fun _ => True) (apply_static re op l r act).
   Proof.
-    destruct op; cbn [apply_static];
+    intros Hu Hpre. destruct op; try discriminate; cbn [apply_static];
       try (apply filter_op_safe; try apply not_safe;
            first [apply equals_safe | apply less_than_safe | apply less_than_or_equal_safe
                  | apply greater_than_safe | apply greater_than_or_equal_safe | apply contains_safe
-                 | apply one_of_safe | apply has_prefix_safe | apply has_suffix_safe | apply has_substring_safe]);
-      try (cbn [safe]; site).
-    - eapply safe_bind; [apply static_regex_safe|]. intros rx _. apply filter_op_safe, regex_opt_safe.
-    - eapply safe_bind; [apply static_regex_safe|]. intros rx _. apply filter_op_safe, not_safe, regex_opt_safe.
+                 | apply one_of_safe | apply has_prefix_safe | apply has_suffix_safe | apply has_substring_safe]).
+    - destruct (static_regex_ok _ r Hpre (or_introl eq_refl)) as (rx & ->). cbn [bind].
+      apply filter_op_safe, regex_opt_safe.
+    - destruct (static_regex_ok _ r Hpre (or_intror eq_refl)) as (rx & ->). cbn [bind].
+      apply filter_op_safe, not_safe, regex_opt_safe.
   Qed.
 
   Lemma tagged_arg_safe act (f : fv -> fv -> res bool) l r :
@@ -173,15 +182,15 @@ Section Regex.
     safe (fun _ => True) (apply_filter_op_with_tagged_argument act f l r).
   Proof. intros H. unfold apply_filter_op_with_tagged_argument. destruct r; [apply filter_op_safe, H|exact I]. Qed.
 
-  Theorem apply_tagged_safe op l r act : safe (fun _ => True) (apply_tagged re op l r act).
+  Theorem apply_tagged_safe op l r act :
+    opk_unary op = false -> safe (fun _ => True) (apply_tagged re op l r act).
   Proof.
-    destruct op; cbn [apply_tagged];
-      try (apply tagged_arg_safe; intros rv; try apply not_safe;
-           first [apply equals_safe | apply less_than_safe | apply less_than_or_equal_safe
-                 | apply greater_than_safe | apply greater_than_or_equal_safe | apply contains_safe
-                 | apply one_of_safe | apply has_prefix_safe | apply has_suffix_safe | apply has_substring_safe
-                 | apply regex_slow_safe]);
-      cbn [safe]; site.
+    intros Hu. destruct op; try discriminate; cbn [apply_tagged];
+      apply tagged_arg_safe; intros rv; try apply not_safe;
+      first [apply equals_safe | apply less_than_safe | apply less_than_or_equal_safe
+            | apply greater_than_safe | apply greater_than_or_equal_safe | apply contains_safe
+            | apply one_of_safe | apply has_prefix_safe | apply has_suffix_safe | apply has_substring_safe
+            | apply regex_slow_safe].
   Qed.
 
   Theorem precheck_static_safe op r : safe (fun _ => True) (precheck_static re op r).
